@@ -40,10 +40,15 @@ rc, out = sh(["git", "-C", "/repo", "apply", patch])
 if rc != 0:
     print("patch does not apply to /repo:", out); sys.exit(2)
 res["checks"] = {}
+# the evidence files describe runs on /repo as it is; a run against a seeded change must not leave its record behind
+saved = {}
+for c in checks:
+    ef = "/verif/evidence/%s.json" % c
+    saved[ef] = open(ef).read() if os.path.exists(ef) else None
 try:
     for c in checks:
         t0 = time.time()
-        rc, out = sh(["./check", c], cwd="/verif", timeout=3600)
+        rc, out = sh(["./check", c], cwd="/verif", timeout=1500)
         lines = [l for l in out.split("\n") if l.startswith("VIOLATION") or l.startswith("KNOWN-FINDING") or " tier=" in l]
         res["checks"][c] = dict(exit=rc, wall=round(time.time() - t0, 1), lines=[l[:300] for l in lines[:6]])
         # keep one replay summary
@@ -60,6 +65,9 @@ try:
 finally:
     sh(["git", "-C", "/repo", "checkout", "--", "."])
     sh(["git", "-C", "/repo", "clean", "-fdq"])
+    for ef, txt in saved.items():
+        if txt is not None:
+            open(ef, "w").write(txt)
 res["caught"] = any(v["exit"] != 0 for v in res["checks"].values())
 # 3. store
 dst = "/verif/seeded/%s-%s" % (pid, var)
